@@ -195,7 +195,7 @@ type FuncReport struct {
 
 func (e *Engine) verifyFunc(name string) *FuncReport {
 	rep := &FuncReport{Name: name}
-	fn := e.funcs[name]
+	fn := e.funcs[funcOf(name)] // "f#variant": a second contract of function f (verified on its own, never used at call sites)
 	c := e.contracts[name]
 	if fn == nil {
 		rep.Errors = append(rep.Errors, "function under contract not found in /repo: "+name)
@@ -844,4 +844,11 @@ func outBase() string {
 		return filepath.Join(verifDir, "out", "canary")
 	}
 	return filepath.Join(verifDir, "out")
+}
+
+func funcOf(n string) string {
+	if i := strings.Index(n, "#"); i > 0 {
+		return n[:i]
+	}
+	return n
 }
